@@ -219,3 +219,114 @@ pub fn sched(a: &[u128]) -> Vec<u128> {
     let _: Option<DecodeError> = None;
     o
 }
+
+/// a Write sink that accepts at most `maxw` bytes per call and at most `cap` bytes in total (then Ok(0))
+pub struct ShortW {
+    pub buf: Vec<u8>,
+    pub maxw: usize,
+    pub cap: usize,
+}
+impl io::Write for ShortW {
+    fn write(&mut self, b: &[u8]) -> io::Result<usize> {
+        let n = b.len().min(self.maxw).min(self.cap - self.buf.len());
+        self.buf.extend_from_slice(&b[..n]);
+        Ok(n)
+    }
+    fn flush(&mut self) -> io::Result<()> {
+        Ok(())
+    }
+}
+/// a ReadAt store that never lets one read_at cross a page boundary
+pub struct PagedStore {
+    pub data: Vec<u8>,
+    pub page: usize,
+}
+impl sync::ReadAt for PagedStore {
+    fn read_at(&self, pos: u64, buf: &mut [u8]) -> io::Result<usize> {
+        let pos = pos as usize;
+        if pos >= self.data.len() {
+            return Ok(0);
+        }
+        let to_page_end = self.page - (pos % self.page);
+        let k = buf.len().min(to_page_end).min(self.data.len() - pos);
+        buf[..k].copy_from_slice(&self.data[pos..pos + k]);
+        Ok(k)
+    }
+}
+
+/// shortw: args [kind, seed, size, bs, op, maxw, cap, okind, q...] -> [rc, payload, out_len, out_dg]
+///  op 0: sync encode_ranges_validated, 1: sync encode_ranges, 2: sync outboard_post_order, each writing into a
+///  short-writing sink; op 3: sync encode_ranges_validated from an io-backed outboard whose store (page size = maxw)
+///  and data source return short positioned reads; op 4: sync valid_ranges over such stores (obs: ranges digest)
+pub fn shortw(a: &[u128]) -> Vec<u128> {
+    use crate::proto::{enc_rc, Ob};
+    use bao_tree::io::outboard::{PostOrderOutboard, PreOrderOutboard};
+    let data = gen_data(a[0] as u64, a[1] as u64, a[2] as usize);
+    let bs = a[3] as u8;
+    let op = a[4];
+    let maxw = (a[5] as usize).max(1);
+    let cap = a[6] as usize;
+    let okind = a[7];
+    let q: Vec<u64> = a[8..].iter().map(|x| *x as u64).collect();
+    let ranges = mk_ranges(&q);
+    let t = BaoTree::new(data.len() as u64, BlockSize::from_chunk_log(bs));
+    let mut w = ShortW { buf: Vec::new(), maxw, cap };
+    let ob = Ob::intact(okind, &data, bs);
+    macro_rules! with_any {
+        ($o:ident => $e:expr) => {
+            match &ob {
+                Ob::PreIO($o) => $e,
+                Ob::PostIO($o) => $e,
+                Ob::PreMem($o) => $e,
+                Ob::PostMem($o) => $e,
+                Ob::Empty($o) => $e,
+            }
+        };
+    }
+    let (rc, p) = match op {
+        0 => with_any!(o => enc_rc(&sync::encode_ranges_validated(&data[..], o, &ranges, &mut w))),
+        1 => with_any!(o => enc_rc(&sync::encode_ranges(&data[..], o, &ranges, &mut w))),
+        2 => match sync::outboard_post_order(io::Cursor::new(&data), t, &mut w) {
+            Ok(_) => (0, 0),
+            Err(e) => (6, kind_code(e.kind())),
+        },
+        _ => {
+            let post = okind == 1;
+            let store = PagedStore { data: refenc::outboard(&data, bs, post), page: maxw };
+            let src = PagedStore { data: data.clone(), page: maxw + 3 };
+            let root = refenc::root(&data);
+            if op == 3 {
+                let mut out = Vec::new();
+                let r = if post {
+                    sync::encode_ranges_validated(&src, PostOrderOutboard { root, tree: t, data: store }, &ranges, &mut out)
+                } else {
+                    sync::encode_ranges_validated(&src, PreOrderOutboard { root, tree: t, data: store }, &ranges, &mut out)
+                };
+                w.buf = out;
+                enc_rc(&r)
+            } else {
+                let mut out = Vec::new();
+                let mut rc = (0u128, 0u128);
+                let mut push = |r: io::Result<std::ops::Range<bao_tree::ChunkNum>>| match r {
+                    Ok(r) => {
+                        out.extend_from_slice(&r.start.0.to_le_bytes());
+                        out.extend_from_slice(&r.end.0.to_le_bytes());
+                    }
+                    Err(e) => rc = (6, kind_code(e.kind())),
+                };
+                if post {
+                    for r in sync::valid_ranges(PostOrderOutboard { root, tree: t, data: store }, &src, &ranges) {
+                        push(r)
+                    }
+                } else {
+                    for r in sync::valid_ranges(PreOrderOutboard { root, tree: t, data: store }, &src, &ranges) {
+                        push(r)
+                    }
+                }
+                w.buf = out;
+                rc
+            }
+        }
+    };
+    vec![rc, p, w.buf.len() as u128, digest(&w.buf) as u128]
+}
